@@ -87,4 +87,7 @@ def obligations(tier, rng):
                     continue            # 1-2 min each; thorough tier only
                 out.append(ob('C04', 'op', '%s/%s/n=[2, 2]%s' % (start, text(f), '/same-start' if same else ''), f=f, ns=[2, 2],
                               start=start, same_start=same, max_paths=60000, wall=1500))
-    return out
+    res_ = out
+    from .. import core as _core
+    res_ = res_ + _core.make_twins(res_, [('zero/once[0,1](x)/n=2', 'ctwindow'), ('zero/always[1,2](x)/n=2', 'ctminmax'), ('zero/(x) and (y)/n=[2, 2]', 'ctminmax'), ('free/eventually[0,1](x)/n=2', 'ctwindow')]) + _core.make_forkmode(res_, ['zero/(x) and (y)/n=[2, 2]', 'zero/once(x)/n=2'])
+    return res_
